@@ -613,23 +613,19 @@ def r_boundloop(ctx):
             loop.add(nexts[0].gid)
             # exits: branch nodes in the loop with a successor outside
             bounded = False
-            for gid in loop:
-                n = I.g.nodes[gid]
-                t = n.data["term"]
-                if t["k"] != "switch":
+            for sw in I.all_effects(("SWITCH",)):
+                gid = sw.gid
+                if gid not in loop:
                     continue
+                n = I.g.nodes[gid]
                 outs = [s for (s, k) in n.succs if k == "normal" and s not in loop]
                 if not outs:
                     continue
-                st = I.in_state.get(gid)
-                if st is None:
-                    continue
-                d = I.eval_operand(st.copy(), n.inst, t["discr"])
+                d = sw["discr"]
                 if isinstance(d, tuple) and d and d[0] == "cmp":
                     ats = set(as_poly(d[2]).atoms()) | set(as_poly(d[3]).atoms())
                     has_counter = any(isinstance(a, tuple) and a and a[0] == "phi" for a in ats)
-                    has_len = any(isinstance(a, tuple) and a and a[0] in ("userlen", "usersize_hint") for a in ats) or \
-                        any(isinstance(a, tuple) and a[0] == "init" for a in ats)
+                    has_len = any(isinstance(a, tuple) and a and a[0] in ("userlen", "usersize_hint") for a in ats)
                     if has_counter and has_len:
                         bounded = True
             if not bounded:
